@@ -4,7 +4,8 @@ import PyaModel.Proofs.C16
 
 Property theorems only.  Model: Core/Fixes.lean (`applyChanges` = `_apply_changes_to_lines`, `addIgnoresRound` =
 one `--add-ignores` run-and-apply, `iterate` / `mainLoop` = the `-r` loop of `main`, `lineRange` =
-`get_line_range_for_node`).  Spec: Spec/FixSpec.lean (`specApply`, `codeLines`, `specRange`, the line lexer).
+`get_line_range_for_node`) and Core/NodeCopy.lean (`visit` = `NodeTransformer.generic_visit`, the AST copier behind
+`replace_node`).  Spec: Spec/FixSpec.lean (`specApply`, `codeLines`, `specRange`, the line lexer).
 
 All theorems are for **all** files (`List Line`, any text) and **all** diagnostic streams (`List Diag`, any
 length) of the modelled fragment; hypotheses are explicit decidable predicates:
@@ -398,6 +399,38 @@ the last line of the file. -/
 theorem old_lineOneWrap_witness :
     oldPrevLineOf ["w: int = 's'".toList, "# static analysis: ignore".toList] 1 = "# static analysis: ignore".toList ∧
     prevLineOf ["w: int = 's'".toList, "# static analysis: ignore".toList] 1 = [] := by decide
+
+/-! ## Node-level fixes: `NodeTransformer` copies the tree and replaces exactly one node -/
+
+/-- **copy_identity (full strength).** The transformer that intercepts nothing returns the tree it was
+given — every field, every list entry, the `None` placeholders of list fields included. -/
+theorem copy_identity (t : Tree) : visit noHook t = .tree t := visit_noHook t
+
+/-- **replace_exact (full strength).** `ReplaceNodeTransformer(n, r)` returns the tree in which exactly the
+node `n` is replaced by `r`: for every tree, every target and every replacement. -/
+theorem replace_exact (target : Nat) (r : Tree) (t : Tree) :
+    visit (replaceHook target r) t = .tree (substTree target r t) := visit_replace target r t
+
+/-- … so a tree that does not contain the target comes back unchanged (in particular every sibling
+sub-tree of the rewritten expression: "nothing else changed"), … -/
+theorem replace_elsewhere_untouched (target : Nat) (r : Tree) (t : Tree) (h : occursTree target t = false) :
+    visit (replaceHook target r) t = .tree t := by
+  rw [replace_exact, substTree_absent target r t h]
+
+/-- … and a list field keeps its length and its `None` placeholders in place (the `**mapping` entries of
+`Dict.keys`, the default-less keyword-only parameters of `kw_defaults`), so parallel lists stay aligned. -/
+theorem replace_keeps_placeholders (target : Nat) (r : Tree) (items : ItemList) :
+    noneMask (copyItems (replaceHook target r) items) = noneMask items := by
+  rw [copyItems_replace, noneMask_subst]
+
+/-- `{**d, "k": <target>}`: keys `[None, "k"]`, values `[d, <target>]`; after the replacement the keys are
+still `[None, "k"]`. -/
+def dictStarTree : Tree :=
+  .mk "Dict" 1 (.cons "keys" (.many (.cons .none (.cons (.tree (.mk "Constant" 2 (.cons "value" (.leaf "'k'") .nil))) .nil)))
+    (.cons "values" (.many (.cons (.tree (.mk "Name" 3 (.cons "id" (.leaf "d") .nil)))
+                           (.cons (.tree (.mk "Constant" 4 (.cons "value" (.leaf "'x = {x}'") .nil))) .nil))) .nil))
+
+example : occursTree 4 dictStarTree = true ∧ occursTree 9 dictStarTree = false := by decide
 
 /-! ## Non-vacuity: the hypotheses are met by non-trivial inputs -/
 
